@@ -770,34 +770,54 @@ var mask int
 func yield(k int) {@YIELD@
 }
 
-func b0(id int) int          { yield(id % 30); println(id); return 1 }
-func b1(id, a int) int       { yield(id % 30); println(id); return a + 1 }
-func b2(id, a, b int) int    { yield(id % 30); println(id); return a + b }
-func b3(id, a, b, c int) int { yield(id % 30); println(id); return a + b + c }
-func n0(id int) int          { println(id); return 1 }
-func n1(id, a int) int       { println(id); return a + 1 }
-func n2(id, a, b int) int    { println(id); return a + b }
-func n3(id, a, b, c int) int { println(id); return a + b + c }
+func b0(id int) int                { yield(id % 30); println(id); return 1 }
+func b1(id, a int) int             { yield(id % 30); println(id); return a + 1 }
+func b2(id, a, b int) int          { yield(id % 30); println(id); return a + b }
+func b3(id, a, b, c int) int       { yield(id % 30); println(id); return a + b + c }
+func b4(id, a, b, c, d int) int    { yield(id % 30); println(id); return a + b + c + d }
+func b5(id, a, b, c, d, e int) int { yield(id % 30); println(id); return a + b + c + d + e }
+func n0(id int) int                { println(id); return 1 }
+func n1(id, a int) int             { println(id); return a + 1 }
+func n2(id, a, b int) int          { println(id); return a + b }
+func n3(id, a, b, c int) int       { println(id); return a + b + c }
+func n4(id, a, b, c, d int) int    { println(id); return a + b + c + d }
+func n5(id, a, b, c, d, e int) int { println(id); return a + b + c + d + e }
+
+type R struct{ k int }
+
+func (r *R) vb(id int, xs ...int) int { yield(id % 30); println(id); return len(xs) + r.k }
+func (r *R) vn(id int, xs ...int) int { println(id); return len(xs) + r.k }
+
+// the target of `defer` / `go` statements: its own execution is not observed, only that of its operands
+func sink(xs ...int) {}
 """
 
 
 def gen_hexpr(r, d, ids, all_blocking=False):
-    """('leaf',) | ('bin', a, b) | ('call', blk, id, [args])"""
+    """('leaf',) | ('bin', a, b) | ('call', blk, id, [args], form)   form: 'direct' | 'vmeth' (variadic method)"""
     c = r.random()
     if d == 0 or c < 0.15:
         return ("leaf",)
-    if c < 0.5:
+    if c < 0.45:
         return ("bin", gen_hexpr(r, d - 1, ids, all_blocking), gen_hexpr(r, d - 1, ids, all_blocking))
-    n = r.choice([0, 0, 1, 1, 2, 2, 3])
-    args = [gen_hexpr(r, d - 1, ids, all_blocking) for _ in range(n)]
-    if n >= 2 and not all_blocking and r.random() < 0.5:
-        # the shape translateArgs exists for: an earlier argument with an inline (non-blocking) call, a later blocking one
-        ids[0] += 1
-        args[0] = ("call", False, ids[0], [])
-        ids[0] += 1
-        args[1] = ("call", True, ids[0], [])
+    args = gen_hargs(r, d, ids, all_blocking)
     ids[0] += 1
-    return ("call", True if all_blocking else r.random() < 0.5, ids[0], args)
+    return ("call", True if all_blocking else r.random() < 0.5, ids[0], args, r.choice(["direct", "direct", "vmeth"]))
+
+
+def gen_hargs(r, d, ids, all_blocking=False):
+    n = r.choice([0, 0, 1, 1, 2, 2, 3, 4, 5])
+    args = [gen_hexpr(r, d - 1, ids, all_blocking) for _ in range(n)]
+    if n >= 2 and not all_blocking and r.random() < 0.6:
+        # the shapes translateArgs exists for: operands with an inline (non-blocking) call before, BETWEEN and after
+        # suspending operands — every operand has to be saved as soon as any later one suspends
+        pat = r.choice(["nb", "bnb", "nbnb", "bnbn", "nbnbn", "xbnb"])
+        for k, ch in enumerate(pat[:n]):
+            if ch == "x":
+                continue
+            ids[0] += 1
+            args[k] = ("call", ch == "b", ids[0], [], "direct")
+    return args
 
 
 def hexpr_go(e):
@@ -805,7 +825,10 @@ def hexpr_go(e):
         return "v"
     if e[0] == "bin":
         return "(%s + %s)" % (hexpr_go(e[1]), hexpr_go(e[2]))
-    return "%s%d(%s)" % ("b" if e[1] else "n", len(e[3]), ", ".join([str(e[2])] + [hexpr_go(a) for a in e[3]]))
+    args = [str(e[2])] + [hexpr_go(a) for a in e[3]]
+    if e[4] == "vmeth":
+        return "rcv.v%s(%s)" % ("b" if e[1] else "n", ", ".join(args))
+    return "%s%d(%s)" % ("b" if e[1] else "n", len(e[3]), ", ".join(args))
 
 
 def hexpr_coq(e):
@@ -816,32 +839,79 @@ def hexpr_coq(e):
     return "(HCall %s %d%%nat [%s])" % ("true" if e[1] else "false", e[2], "; ".join(hexpr_coq(a) for a in e[3]))
 
 
-def hexpr_calls(e):
+# ---- the hoisting model in Python (mirror of coq/Model/C02_Hoist.v), used only to decide whether a deviation from
+#      Go's order falls into the recorded finding's input class or is a NEW violation
+def h_marked(e):
     if e[0] == "leaf":
-        return 0
+        return False
     if e[0] == "bin":
-        return hexpr_calls(e[1]) + hexpr_calls(e[2])
-    return 1 + sum(hexpr_calls(a) for a in e[3])
+        return h_marked(e[1]) or h_marked(e[2])
+    return e[1] or any(h_marked(a) for a in e[3])
+
+
+def h_tr(e):
+    if e[0] == "leaf":
+        return [], []
+    if e[0] == "bin":
+        pa, ia = h_tr(e[1]); pb, ib = h_tr(e[2])
+        return pa + pb, ia + ib
+    trs = [h_tr(a) for a in e[3]]
+    if any(h_marked(a) for a in e[3][1:]):
+        p, i = [x for pi in trs for x in pi[0] + pi[1]], []
+    else:
+        p, i = [x for pi in trs for x in pi[0]], [x for pi in trs for x in pi[1]]
+    if h_marked(e):
+        return p + i + [e[2]], []
+    return p, i + [e[2]]
+
+
+def h_ordered(e):
+    if e[0] == "leaf":
+        return True
+    if e[0] == "bin":
+        return h_ordered(e[1]) and h_ordered(e[2]) and (not h_tr(e[1])[1] or not h_marked(e[2]))
+    return all(h_ordered(a) for a in e[3])
+
+
+def hstmt_in_finding_class(st):
+    """True when the model itself predicts a deviation from Go's order for this statement (recorded findings)"""
+    if st[0] == "assign":
+        return not h_ordered(st[1])
+    if st[0] == "index":
+        return True
+    return not all(h_ordered(a) for a in st[1])
 
 
 def hoist_program(r, masks, nstmts):
-    """-> dict(files, files_direct, stmts=[('assign', e) | ('index', idx, rhs)])"""
+    """-> dict(files, files_direct, stmts=[('assign', e) | ('index', idx, rhs) | ('defer', [args]) | ('go', [args])])"""
     ids = [0]
     stmts, body = [], []
     for _ in range(nstmts):
-        if r.random() < 0.25:
+        c = r.random()
+        if c < 0.2:
             idx = gen_hexpr(r, 2, ids, all_blocking=True)
             rhs = gen_hexpr(r, 2, ids, all_blocking=True)
             stmts.append(("index", idx, rhs))
             body.append("\t\tarr[(%s)*0] = %s" % (hexpr_go(idx), hexpr_go(rhs)))
+        elif c < 0.4:
+            kind = "defer" if c < 0.3 else "go"
+            args = []
+            while len(args) < 2:
+                args = gen_hargs(r, 2, ids)
+            stmts.append((kind, args))
+            call = "sink(%s)" % ", ".join(hexpr_go(a) for a in args)
+            if kind == "defer":
+                body.append("\t\tfunc() {\n\t\t\tdefer %s\n\t\t}()" % call)
+            else:
+                body.append("\t\tgo %s" % call)
         else:
             e = gen_hexpr(r, 3, ids)
             stmts.append(("assign", e))
             body.append("\t\tv = %s" % hexpr_go(e))
         body.append("\t\tprintln(-5)")
-    main = ["func main() {", "\tmasks := [...]int{%s}" % ", ".join(str(m) for m in masks), "\tfor _, m := range masks {",
+    main = ["func main() {", "\tmasks := [...]int{%s}" % ", ".join(str(m) for m in masks), "\trcv := &R{1}", "\tfor _, m := range masks {",
             "\t\tmask = m", "\t\tvar arr [1]int", "\t\tv := 1", "\t\tprintln(-77777777)"] + body + \
-           ["\t\tprintln(-77777777)", "\t\tprintln(v*0 + arr[0]*0)", "\t}", "}"]
+           ["\t\tprintln(-77777777)", "\t\tprintln(v*0 + arr[0]*0 + rcv.k*0)", "\t}", "}"]
     src = HOIST_PRELUDE + "\n" + "\n".join(main) + "\n"
     return dict(files={"main.go": src.replace("@YIELD@", YIELD_BODY)}, files_direct={"main.go": src.replace("@YIELD@", "")}, stmts=stmts)
 
@@ -849,4 +919,6 @@ def hoist_program(r, masks, nstmts):
 def hstmt_coq(st):
     if st[0] == "assign":
         return "(HAssign %s)" % hexpr_coq(st[1])
-    return "(HIndexAssign %s %s)" % (hexpr_coq(st[1]), hexpr_coq(st[2]))
+    if st[0] == "index":
+        return "(HIndexAssign %s %s)" % (hexpr_coq(st[1]), hexpr_coq(st[2]))
+    return "(HDelegated [%s])" % "; ".join(hexpr_coq(a) for a in st[1])
